@@ -54,6 +54,8 @@ impl RegexMatcherBuilder {
         &self,
         patterns: &[P],
     ) -> Result<RegexMatcher, Error> {
+        #[cfg(ripgrep_verif)]
+        crate::verif::reset();
         let mut chir = self.config.build_many(patterns)?;
         // 'whole_line' is a strict subset of 'word', so when it is enabled,
         // we don't need to both with any specific to word matching.
@@ -64,6 +66,8 @@ impl RegexMatcherBuilder {
         }
         let regex = chir.to_regex()?;
         log::trace!("final regex: {:?}", chir.hir().to_string());
+        #[cfg(ripgrep_verif)]
+        crate::verif::stash_final(chir.hir());
 
         let non_matching_bytes = chir.non_matching_bytes();
         // If we can pick out some literals from the regex, then we might be
